@@ -257,7 +257,8 @@ def gen_real_case(rng):
             seq.append(r)
     return {'kind': 'real', 'seq': seq, 'to': rng.choice(['martini3001', 'martini3001', 'martini22']),
             'first_resid': rng.choice([1, 1, 7, 42]), 'gap': rng.random() < 0.3, 'keys': rng.choice(['consecutive', 'sparse', 'shuffled_within']),
-            'seed': rng.randrange(10 ** 6), 'fast': True, 'elements': rng.random() < 0.6}
+            'seed': rng.randrange(10 ** 6), 'fast': True, 'elements': rng.random() < 0.6,
+            'nter': rng.choice([None, None, 'N-ter', 'NH2-ter']), 'cter': rng.choice([None, None, 'C-ter', 'COOH-ter'])}
 
 
 def run_real(inp):
@@ -296,6 +297,43 @@ def run_real(inp):
             mol.add_edge(prevC, local['N'])
         prevC = local.get('C')
         resid += 2 if inp['gap'] else 1
+    termini = [t for t in (inp.get('nter'), inp.get('cter')) if t]
+    ptm_keys, labels = [], {}
+    if termini:
+        res_atoms = {}
+        for k in mol.nodes:
+            res_atoms.setdefault(mol.nodes[k]['resid'], []).append(k)
+            mol.nodes[k]['element'] = mol.nodes[k]['atomname'].lstrip('0123456789')[:1]
+        resids = sorted(res_atoms)
+
+        def add(resid_, name, el, to):
+            nonlocal key
+            key += 1
+            like = mol.nodes[to]
+            mol.add_node(key, atomname=name, element=el, resid=resid_, resname=like['resname'], chain='A', PTM_atom=True)
+            mol.add_edge(key, to)
+            ptm_keys.append(key)
+            res_atoms[resid_].append(key)
+            return key
+
+        def find(resid_, name):
+            return [k for k in res_atoms[resid_] if mol.nodes[k]['atomname'] == name][0]
+        if inp.get('nter') and any(mol.nodes[k]['atomname'] == 'N' for k in res_atoms[resids[0]]):
+            n = find(resids[0], 'N')
+            add(resids[0], 'HN2', 'H', n)
+            if inp['nter'] == 'N-ter':
+                add(resids[0], 'HN3', 'H', n)
+            for k in res_atoms[resids[0]]:
+                mol.nodes[k].setdefault('modifications', []).append(ff_from.modifications[inp['nter']])
+                labels.setdefault(k, []).append(inp['nter'])
+        if inp.get('cter') and any(mol.nodes[k]['atomname'] == 'C' for k in res_atoms[resids[-1]]):
+            c = find(resids[-1], 'C')
+            o = add(resids[-1], 'OXT', 'O', c)
+            if inp['cter'] == 'COOH-ter':
+                add(resids[-1], 'HO', 'H', o)
+            for k in res_atoms[resids[-1]]:
+                mol.nodes[k].setdefault('modifications', []).append(ff_from.modifications[inp['cter']])
+                labels.setdefault(k, []).append(inp['cter'])
     mappings = maps['charmm'][inp['to']]
     relevant = [(name, mp) for name, mp in mappings.items() if mp.type == 'block' and len(mp.names) == 1 and mp.names[0] in inp['seq']]
     # codes
@@ -331,14 +369,48 @@ def run_real(inp):
                          'to': {'nodes': to_nodes, 'edges': [[tk[u], tk[v]] for u, v in mp.block_to.edges], 'inters': inters}, 'map': mapping})
         for m in mp.map(mol, node_match=dm._old_atomname_match, edge_match=dm.edge_matcher):
             found.append([mi, [[k, [[tk[b], round(w * W)] for b, w in v.items()]] for k, v in m[0].items()]])
+    used_mods = sorted({m for v in labels.values() for m in v})
+    mod_id = {m: i + 1 for i, m in enumerate(used_mods)}
+    modmaps, mod_objs = [], []
+    for name, mp in mappings.items():
+        if mp.type != 'modification' or not all(n in mod_id for n in mp.names):
+            continue
+        fk = {k: i for i, k in enumerate(mp.block_from.nodes)}
+        tk = {k: i for i, k in enumerate(mp.block_to.nodes)}
+        frm = [{'key': fk[k], 'name': code(names, nd['atomname']), 'resname': code(resnames, nd['resname']) if nd.get('resname') else None,
+                'ptm': bool(nd.get('PTM_atom')), 'mods': [mod_id[m.name] for m in nd.get('modifications', []) if m.name in mod_id]}
+               for k, nd in mp.block_from.nodes(data=True)]
+        to = [{'key': tk[k], 'name': code(names, 'cg:' + nd['atomname']), 'new': bool(nd.get('PTM_atom')),
+               'rename': code(names, 'cg:' + nd['replace']['atomname']) if nd.get('replace', {}).get('atomname') else None}
+              for k, nd in mp.block_to.nodes(data=True)]
+        tinters = []
+        for t, lst in mp.block_to.interactions.items():
+            for i in lst:
+                tinters.append([code(types, t), [tk[a] for a in i.atoms], code(params, (t, tuple(map(str, i.parameters)), repr(sorted(i.meta.items()))))])
+        modmaps.append({'names': [mod_id[n] for n in mp.names], 'from': frm, 'fedges': [[fk[u], fk[v]] for u, v in mp.block_from.edges],
+                        'to': to, 'tedges': [[tk[u], tk[v]] for u, v in mp.block_to.edges], 'tinters': tinters,
+                        'map': [[fk[a], [[tk[b], round(w * W)] for b, w in tgt.items()]] for a, tgt in mp.mapping.items()]})
+        mod_objs.append((mp, tk))
+    mfound = []
+    orig_mm = dm.modification_matches
+
+    def mm_wrapper(molecule, maps_):
+        res = orig_mm(molecule, maps_)
+        for m2m, modification, _ in res:
+            idx = [i for i, (mp, _) in enumerate(mod_objs) if mp.block_to is modification][0]
+            tk = mod_objs[idx][1]
+            mfound.append([idx, [[k, [[tk[b], round(w * W)] for b, w in v.items()]] for k, v in m2m.items()]])
+        return res
     handler = _Catch()
     lg = logging.getLogger('vermouth')
     old = lg.level
     lg.setLevel(logging.DEBUG)
     lg.addHandler(handler)
+    dm.modification_matches = mm_wrapper
     try:
         out = dm.do_mapping(mol, maps, ff_to, attribute_keep=('cgsecstruct', 'chain'), attribute_must=('resname',), attribute_stash=('resid',))
     finally:
+        dm.modification_matches = orig_mm
         lg.removeHandler(handler)
         lg.setLevel(old)
     beads = []
@@ -353,6 +425,8 @@ def run_real(inp):
             inters.append([code(types, t), list(i.atoms), code(params, (t, tuple(map(str, i.parameters)), repr(sorted(i.meta.items()))))])
     msgs = [(r.levelno, str(r.msg)) for r in handler.records]
     return {'mol': {'atoms': mol_atoms, 'bonds': [list(e) for e in mol.edges]}, 'maps': enc_maps,
+            'modmaps': modmaps, 'mfound': mfound, 'ptm': ptm_keys, 'labels': [[k, [mod_id[m] for m in v]] for k, v in sorted(labels.items())],
+            'no_cover': sum(1 for _, m in [(r.levelno, str(r.msg)) for r in handler.records] if "Can't find modification mappings" in m),
             'found': found, 'beads': beads, 'edges': [list(e) for e in out.edges], 'inters': inters,
             'overlap': any('covered by multiple blocks' in m for _, m in msgs),
             'unmapped': any(l >= logging.WARNING and 'not covered by a mapping' in m for l, m in msgs),
@@ -627,13 +701,17 @@ def emit_mods(inp, out):
         res = '(Some (%s, %s, %s, %s, %s))' % (beads_lit(r['beads']), pairs_lit(r['edges']),
                                                listlit(r['inters'], lambda i: '(%s, (%s, %s))' % (zlit(i[0]), listlit(i[1], zlit), zlit(i[2]))),
                                                blit(r['overlap']), blit(r['unmapped']))
-    return 'CDoMods %s %s %s %s %s %s %s' % (listlit(inp['maps'], map_lit), listlit(inp['modmaps'], modmap_lit), L, found, mfound,
+    return 'CDoMods %s %s %s %s %s %s %s %s' % (blit(bool(inp.get('fast'))), listlit(inp['maps'], map_lit), listlit(inp['modmaps'], modmap_lit), L, found, mfound,
                                            natlit(out['no_cover']), res)
 
 
 def emit(inp, out):
     if inp['kind'] == 'mods':
         return emit_mods(inp, out)
+    if inp['kind'] == 'real' and out.get('labels'):
+        r = {'beads': out['beads'], 'edges': out['edges'], 'inters': out['inters'], 'overlap': out['overlap'], 'unmapped': out['unmapped']}
+        return emit_mods(dict(inp, mol=out['mol'], maps=out['maps'], modmaps=out['modmaps'], ptm=out['ptm'], labels=out['labels']),
+                         dict(out, result=r))
     if inp['kind'] == 'real':
         inp = dict(inp, mol=out['mol'], maps=out['maps'])
     if inp['kind'] == 'map':
@@ -668,7 +746,7 @@ def nontrivial(inp, out):
 
 def describe(inp, out):
     if inp['kind'] == 'real':
-        return {'kind': 'real', 'real_to': inp['to'], 'real_n_res': len(inp['seq']), 'real_keys': inp['keys'], 'real_unmapped': out['unmapped'],
+        return {'kind': 'real', 'real_to': inp['to'], 'real_termini': '%s/%s' % (inp.get('nter'), inp.get('cter')), 'real_mod_placements': len(out.get('mfound', [])), 'real_n_res': len(inp['seq']), 'real_keys': inp['keys'], 'real_unmapped': out['unmapped'],
                 'real_n_beads': min(len(out['beads']), 12)}
     if inp['kind'] == 'mods':
         return {'kind': 'mods', 'n_mod_placements': min(len(out['mfound']), 4), 'mods_error': out['result'] is None,
